@@ -642,6 +642,9 @@ def r17d(ctx):
                   'downloaded term data is returned only behind data.len() == term.unpacked_length',
                   'downloaded (and possibly trimmed) term data is returned without the check against term.unpacked_length: a wrong trim goes undetected and shifts everything written after it')
     ctx.check(len(cold) >= 1, 'R17d', fn, 'cold return', '-', '%d cold success return(s)' % len(cold))
+    for (b, si, e) in warm:
+        if not (bool(eq) and a.cfg.must_pass(b, via_edges=eq)):
+            ctx.info('R17d', fn, a.loc(b, si if si < 10 ** 6 else None), 'information: the warm (cache hit) return is not behind the unpacked_length check; the length of a hit is what C12 decides (a hit returns what was put for that range)')
     # --- warm lookup
     for g in gets:
         kh = _key_hash(a, a.arg(g, 1))
